@@ -2218,6 +2218,23 @@ static unsigned long long FIO_getLargestFileSize(const char** inFileNames, unsig
     return maxFileSize;
 }
 
+/* FIO_dstIsAlsoASource() :
+ * several sources into one destination : the destination is opened (and an existing file of that name removed)
+ * before any source is read, so it must not be one of the sources.
+ * @return : 1 if @dstFileName names the same file as one of the sources */
+static int FIO_dstIsAlsoASource(const char** srcNamesTable, int nbSrc, const char* dstFileName)
+{
+    int n;
+    if (!strcmp(dstFileName, stdoutmark) || !strcmp(dstFileName, nulmark)) return 0;
+    for (n = 0; n < nbSrc; n++) {
+        if (UTIL_isSameFile(srcNamesTable[n], dstFileName)) {
+            DISPLAYLEVEL(1, "zstd: Refusing to open an output file which will overwrite the input file %s \n", srcNamesTable[n]);
+            return 1;
+        }
+    }
+    return 0;
+}
+
 /* FIO_compressMultipleFilenames() :
  * compress nbFiles files
  * into either one destination (outFileName),
@@ -2243,7 +2260,8 @@ int FIO_compressMultipleFilenames(FIO_ctx_t* const fCtx,
     assert(outFileName != NULL || suffix != NULL);
     if (outFileName != NULL) {   /* output into a single destination (stdout typically) */
         FILE *dstFile;
-        if (FIO_multiFilesConcatWarning(fCtx, prefs, outFileName, 1 /* displayLevelCutoff */)) {
+        if (FIO_multiFilesConcatWarning(fCtx, prefs, outFileName, 1 /* displayLevelCutoff */)
+         || FIO_dstIsAlsoASource(inFileNamesTable, fCtx->nbFilesTotal, outFileName)) {
             FIO_freeCResources(&ress);
             return 1;
         }
@@ -3099,7 +3117,8 @@ FIO_decompressMultipleFilenames(FIO_ctx_t* const fCtx,
     dRess_t ress = FIO_createDResources(prefs, dictFileName);
 
     if (outFileName) {
-        if (FIO_multiFilesConcatWarning(fCtx, prefs, outFileName, 1 /* displayLevelCutoff */)) {
+        if (FIO_multiFilesConcatWarning(fCtx, prefs, outFileName, 1 /* displayLevelCutoff */)
+         || (!prefs->testMode && FIO_dstIsAlsoASource(srcNamesTable, fCtx->nbFilesTotal, outFileName))) {
             FIO_freeDResources(ress);
             return 1;
         }
